@@ -286,7 +286,7 @@ theorem bigEndian_roundtrip (b : List UInt8) (hb : b.length = 32) (z0 z1 z2 z3 :
   rw [e]; subst e0 e1 e2 e3; rfl
 
 /-- **C08_gen** `bigEndian.PutElement (bigEndian.Element b) = b` whenever `b` is accepted (into any target array) -/
-theorem bigEndian_roundtrip' (b t : List UInt8) (hb : b.length = 32) (ht : t.length = 32) (h : Conv.beToNat b < P.q) :
+theorem bigEndian_roundtrip_inv (b t : List UInt8) (hb : b.length = 32) (ht : t.length = 32) (h : Conv.beToNat b < P.q) :
     Gen.Bytes.stark_curve_fr.bigEndian_PutElement t (Gen.Bytes.stark_curve_fr.bigEndian_Element b).1 (Gen.Bytes.stark_curve_fr.bigEndian_Element b).2.1 (Gen.Bytes.stark_curve_fr.bigEndian_Element b).2.2.1 (Gen.Bytes.stark_curve_fr.bigEndian_Element b).2.2.2.1 = b := by
   obtain ⟨m0, m1, m2, m3, g, hm, e⟩ := bigEndian_Element_accept b hb h
   rw [e]
@@ -308,7 +308,7 @@ theorem littleEndian_roundtrip (b : List UInt8) (hb : b.length = 32) (z0 z1 z2 z
   rw [e]; subst e0 e1 e2 e3; rfl
 
 /-- **C08_gen** `littleEndian.PutElement (littleEndian.Element b) = b` whenever `b` is accepted (into any target array) -/
-theorem littleEndian_roundtrip' (b t : List UInt8) (hb : b.length = 32) (ht : t.length = 32) (h : Conv.leToNat b < P.q) :
+theorem littleEndian_roundtrip_inv (b t : List UInt8) (hb : b.length = 32) (ht : t.length = 32) (h : Conv.leToNat b < P.q) :
     Gen.Bytes.stark_curve_fr.littleEndian_PutElement t (Gen.Bytes.stark_curve_fr.littleEndian_Element b).1 (Gen.Bytes.stark_curve_fr.littleEndian_Element b).2.1 (Gen.Bytes.stark_curve_fr.littleEndian_Element b).2.2.1 (Gen.Bytes.stark_curve_fr.littleEndian_Element b).2.2.2.1 = b := by
   obtain ⟨m0, m1, m2, m3, g, hm, e⟩ := littleEndian_Element_accept b hb h
   rw [e]
